@@ -7,7 +7,7 @@
    PROVED (_partial): under the sufficient condition [safe t] (C04/Valid.v). *)
 From Coq Require Import List Permutation String.
 Import ListNotations.
-From PV Require Import C03.Names C03.Decls C03.OrderProofs C03.DeclProofs C03.FlattenProofs C03.RoundTrip C04.Valid.
+From PV Require Import C03.Names C03.Decls C03.OrderProofs C03.DeclProofs C03.FlattenProofs C03.RoundTrip C04.Valid C04.CodeBlocks.
 Open Scope list_scope.
 
 (* decls_complete: every declarable symbol of the table is emitted exactly once ... *)
@@ -68,7 +68,42 @@ Theorem C04_merge_no_capture : forall outer routine inners,
 Proof. intros. split; [apply flatten_spec_ | apply flatten_names_unique_]. Qed.
 Print Assumptions C04_merge_no_capture.
 
+(* merge_no_capture for references that are TEXT (names inside CodeBlocks): scopes carry the normalised
+   names their CodeBlocks mention; rename_symbol refuses to rename such a symbol (the merge then raises:
+   flatten_cb = None).  When the merge succeeds: routine-scope symbols are untouched, a symbol named in a
+   CodeBlock of its scope keeps its name, and all names of the flat table differ. *)
+Theorem C04_merge_no_capture_codeblocks : forall outer routine inners f,
+    NoDup (nnames routine) ->
+    flatten_cb outer routine inners = Some f ->
+    exists xs, f = routine ++ List.concat xs /\
+               Forall2 (fun ct x => Forall2 (keeps outer (fst ct)) (snd ct) x) inners xs /\
+               NoDup (nnames f).
+Proof. exact merge_no_capture_codeblocks_. Qed.
+Print Assumptions C04_merge_no_capture_codeblocks.
+
+(* ... hence a name denotes exactly one symbol of the flat routine *)
+Theorem C04_unique_resolution : forall f s s', NoDup (nnames f) -> In s f -> In s' f ->
+    normalize (s_name s) = normalize (s_name s') -> s = s'.
+Proof. exact unique_resolution. Qed.
+Print Assumptions C04_unique_resolution.
+
 Open Scope string_scope.
+(* the guard is what prevents capture: the guarded merge refuses, the unguarded one renames the inner
+   tmp that the CodeBlock of its scope spells TMP, leaving the text to the routine-scope tmp *)
+Example C04_codeblock_guard_refuses :
+  flatten_cb [] [mkSym 0 "tmp" CVar [] []] [(["tmp"], [mkSym 1 "tmp" CVar [] []])] = None
+  /\ map s_name (flatten [] [mkSym 0 "tmp" CVar [] []] [[mkSym 1 "tmp" CVar [] []]]) = ["tmp"; "tmp_1"].
+Proof. exact guard_refuses. Qed.
+Print Assumptions C04_codeblock_guard_refuses.
+
+Example C04_codeblock_guard_nonvacuous :
+  option_map (map s_name)
+    (flatten_cb ["m"] [mkSym 0 "tmp" CVar [] []; mkSym 1 "val" CVar [] []]
+                [(["acc"], [mkSym 2 "VAL" CVar [] []; mkSym 3 "acc" CVar [] []]); (["val"], [mkSym 4 "Tmp" CVar [] []])])
+  = Some ["tmp"; "val"; "VAL_1"; "acc"; "Tmp_1"].
+Proof. exact guard_nonvacuous. Qed.
+Print Assumptions C04_codeblock_guard_nonvacuous.
+
 Example C04_safe_nonvacuous :
   let t := [ mkSym 0 "x" CVar [] [3; 5]; mkSym 1 "n2" CConst [3] [3]; mkSym 2 "arg" CArg [] [3];
              mkSym 3 "n" CConst [4] [4]; mkSym 4 "wp" CConst [] []; mkSym 5 "tt" CType [] [4];
